@@ -6,6 +6,7 @@ package main
 // bv mode (per function, `arith bv64`) maps them to bit-vectors of their width.
 
 import (
+	"hash/fnv"
 	"fmt"
 	"go/types"
 	"sort"
@@ -32,6 +33,17 @@ type Sorts struct {
 func newSorts(bv bool, inRepo func(string) bool) *Sorts {
 	return &Sorts{bv: bv, declared: map[string]bool{}, structs: map[string]*types.Struct{},
 		typeTags: map[string]int{}, strLits: map[string]string{}, repoPaths: inRepo}
+}
+
+// fileSafe: sanitize for use as a file name (names of anonymous struct types can exceed the file system's limit).
+func fileSafe(s string) string {
+	n := sanitize(s)
+	if len(n) > 160 {
+		h := fnv.New32a()
+		h.Write([]byte(n))
+		n = fmt.Sprintf("%s_%08x", n[:120], h.Sum32())
+	}
+	return n
 }
 
 func sanitize(s string) string {
